@@ -17,6 +17,18 @@ theorem showOne_fonts (nfc : List Nat → List Nat) (st : St) (d : Str) : (showO
   · split <;> rfl
   · rfl
 
+theorem showOne_sel (nfc : List Nat → List Nat) (st : St) (d : Str) : (showOne nfc st d).sel = st.sel := by
+  unfold showOne
+  split
+  · split <;> rfl
+  · rfl
+
+theorem showOne_stack (nfc : List Nat → List Nat) (st : St) (d : Str) : (showOne nfc st d).stack = st.stack := by
+  unfold showOne
+  split
+  · split <;> rfl
+  · rfl
+
 theorem showArray_fonts (nfc : List Nat → List Nat) (st : St) (xs : List Obj) : (showArray nfc st xs).fonts = st.fonts := by
   induction xs generalizing st with
   | nil => rfl
@@ -35,7 +47,7 @@ history, provided it holds across the primitive steps and across `invoke` given 
 across the form's own operations. -/
 theorem run_induction (nfc : List Nat → List Nat) (res : FRes) (P : St → St → Prop)
     (hrefl : ∀ st, P st st) (htrans : ∀ a b c, P a b → P b c → P a c)
-    (hq : ∀ st : St, P st { st with stack := st.cur :: st.stack })
+    (hq : ∀ st : St, P st { st with stack := (st.cur, st.sel) :: st.stack })
     (hQ : ∀ st st', restore st = some st' → P st st')
     (hTf : ∀ st n, P st (setFont st n))
     (hshow : ∀ st d, P st (showOne nfc st d))
@@ -115,7 +127,7 @@ byte string: the operations are then required to carry byte strings (`OpsBytes`,
 what `csParse` produces from bytes: `Pdf.CS.csParse_showBytes`) -/
 theorem run_induction_bytes (nfc : List Nat → List Nat) (res : FRes) (P : St → St → Prop)
     (hrefl : ∀ st, P st st) (htrans : ∀ a b c, P a b → P b c → P a c)
-    (hq : ∀ st : St, P st { st with stack := st.cur :: st.stack })
+    (hq : ∀ st : St, P st { st with stack := (st.cur, st.sel) :: st.stack })
     (hQ : ∀ st st', restore st = some st' → P st st')
     (hTf : ∀ st n, P st (setFont st n))
     (hshow : ∀ st d, Pdf.CS.Bytes d → P st (showOne nfc st d))
@@ -199,17 +211,16 @@ theorem keeps_of_fonts_eq {a b : St} (h : b.fonts = a.fonts) : Keeps a b := by
 
 theorem keeps_setFont (st : St) (n : Str) : Keeps st (setFont st n) := by
   intro name f hf
-  show (if (st.fonts (if n.head? = some 47 then n else 47 :: n)).isSome then st.fonts
-        else st.fonts.set (if n.head? = some 47 then n else 47 :: n) defaultFont) name = some f
+  unfold setFont
+  simp only
   generalize (if n.head? = some 47 then n else 47 :: n) = key
-  by_cases h : (st.fonts key).isSome = true
-  · rw [if_pos h]; exact hf
-  · rw [if_neg h]
+  split
+  · exact hf
+  · rename_i hnone
+    show st.fonts.set key defaultFont name = some f
     unfold FontMap.set
     by_cases hk : name = key
-    · subst hk
-      rw [hf] at h
-      simp at h
+    · subst hk; rw [hf] at hnone; simp at hnone
     · simp only [hk, if_false]; exact hf
 
 theorem popOrKeep_fonts (st : St) : (popOrKeep st).fonts = st.fonts := by
@@ -529,7 +540,11 @@ theorem staysGood_all (nfc : List Nat → List Nat) (hdec : ∀ f d, (FontDecode
   · intro a b c hab hbc h; exact hbc (hab h)
   · intro st h; exact h
   · intro st st' h hb; rw [restore_bad h]; exact hb
-  · intro st n h; exact h
+  · intro st n h
+    show (setFont st n).bad = false
+    unfold setFont
+    simp only
+    split <;> exact h
   · exact showOne_bad nfc hdec
   · intro fuel ih st n hb
     rw [invoke.eq_2]
@@ -550,9 +565,51 @@ theorem staysGood_all (nfc : List Nat → List Nat) (hdec : ∀ f d, (FontDecode
 /-- the font's ToUnicode CMap, if any, holds only lists of scalar values -/
 def FontOK (f : FontDecode.Font) : Prop := ∀ cm, f.toUnicode = some cm → CMap.CharsOK cm
 
-/-- all registered fonts are `FontOK`, all texts so far are lists of scalar values -/
+/-- the fonts saved on the graphics-state stack are `FontOK` -/
+def StackOK (stack : List (Str × Option FontDecode.Font)) : Prop := ∀ p ∈ stack, ∀ f, p.2 = some f → FontOK f
+
+/-- all registered fonts, the selected font and the fonts saved on the graphics-state stack
+are `FontOK`, all texts so far are lists of scalar values -/
 def Utf8Inv (st : St) : Prop :=
-  (∀ name f, st.fonts name = some f → FontOK f) ∧ (∀ s ∈ st.out, CMap.AllScalar s)
+  (∀ name f, st.fonts name = some f → FontOK f) ∧ (∀ s ∈ st.out, CMap.AllScalar s) ∧
+    (∀ f, st.sel = some f → FontOK f) ∧ StackOK st.stack
+
+theorem stackOK_push {stack : List (Str × Option FontDecode.Font)} (h : StackOK stack) (c : Str)
+    (sel : Option FontDecode.Font) (hs : ∀ f, sel = some f → FontOK f) : StackOK ((c, sel) :: stack) := by
+  intro p hp f hf
+  rcases List.mem_cons.mp hp with hp | hp
+  · subst hp; exact hs f hf
+  · exact h p hp f hf
+
+theorem restore_utf8 {st st' : St} (hr : restore st = some st') (h : Utf8Inv st) : Utf8Inv st' := by
+  unfold restore at hr
+  split at hr
+  · simp at hr
+  · rename_i c r hst
+    simp only [Option.some.injEq] at hr; subst hr
+    have hstack : StackOK (c :: r) := by rw [← hst]; exact h.2.2.2
+    exact ⟨h.1, h.2.1, fun f hf => hstack c (by simp) f hf, fun p hp => hstack p (List.mem_cons_of_mem _ hp)⟩
+
+theorem push_utf8 (st : St) (h : Utf8Inv st) : Utf8Inv { st with stack := (st.cur, st.sel) :: st.stack } :=
+  ⟨h.1, h.2.1, h.2.2.1, stackOK_push h.2.2.2 _ _ h.2.2.1⟩
+
+theorem defaultFont_ok : FontOK defaultFont := by
+  intro cm hcm; simp [defaultFont, Reader.defaultFont] at hcm
+
+theorem setFont_utf8 (st : St) (n : Str) (h : Utf8Inv st) : Utf8Inv (setFont st n) := by
+  unfold setFont
+  simp only
+  generalize (if n.head? = some 47 then n else 47 :: n) = key
+  split
+  · rename_i f hf
+    exact ⟨h.1, h.2.1, fun g hg => by simp only [Option.some.injEq] at hg; subst hg; exact h.1 key f hf, h.2.2.2⟩
+  · refine ⟨?_, h.2.1, fun g hg => by simp only [Option.some.injEq] at hg; subst hg; exact defaultFont_ok, h.2.2.2⟩
+    intro name f hf
+    have hf' : st.fonts.set key defaultFont name = some f := hf
+    unfold FontMap.set at hf'
+    by_cases hk : name = key
+    · simp only [hk, if_true, Option.some.injEq] at hf'; subst hf'; exact defaultFont_ok
+    · simp only [hk, if_false] at hf'; exact h.1 name f hf'
 
 /-- every stream the resolver hands out decodes to a byte string -/
 def ResBytes (res : FRes) : Prop := ∀ n d dec, res n = .ok (.stream d (some dec)) → Pdf.CS.Bytes dec
@@ -629,12 +686,12 @@ theorem registerFonts_ok (res : Reader.Res) (rd : Dict) (m : FontMap) (hm : ∀ 
 
 theorem setFont_fonts_cases (st : St) (n name : Str) (f : FontDecode.Font) (h : (setFont st n).fonts name = some f) :
     st.fonts name = some f ∨ f = defaultFont := by
-  have h' : (if (st.fonts (if n.head? = some 47 then n else 47 :: n)).isSome then st.fonts
-        else st.fonts.set (if n.head? = some 47 then n else 47 :: n) defaultFont) name = some f := h
-  generalize (if n.head? = some 47 then n else 47 :: n) = key at h'
-  by_cases hs : (st.fonts key).isSome = true
-  · rw [if_pos hs] at h'; exact Or.inl h'
-  · rw [if_neg hs] at h'
+  unfold setFont at h
+  simp only at h
+  generalize (if n.head? = some 47 then n else 47 :: n) = key at h
+  split at h
+  · exact Or.inl h
+  · have h' : st.fonts.set key defaultFont name = some f := h
     unfold FontMap.set at h'
     by_cases hk : name = key
     · simp only [hk, if_true, Option.some.injEq] at h'; exact Or.inr h'.symm
@@ -660,18 +717,14 @@ theorem leaveForm_fonts_cases (res : FRes) (sd rd : Dict) (outer : FontMap) (st2
 theorem popOrKeep_utf8 (st : St) (h : Utf8Inv st) : Utf8Inv (popOrKeep st) := by
   unfold popOrKeep
   split
-  · rename_i s hs
-    unfold restore at hs
-    split at hs
-    · simp at hs
-    · simp only [Option.some.injEq] at hs; subst hs; exact h
+  · rename_i s hs; exact restore_utf8 hs h
   · exact h
 
 theorem leaveForm_utf8 (res : FRes) (sd rd : Dict) (outer : FontMap) (st2 : St)
     (houter : ∀ name f, outer name = some f → FontOK f) (h2 : Utf8Inv st2) :
     Utf8Inv (leaveForm res sd rd outer st2) := by
   have hpop := popOrKeep_utf8 st2 h2
-  refine ⟨?_, by rw [leaveForm_out]; exact hpop.2⟩
+  refine ⟨?_, by rw [leaveForm_out]; exact hpop.2.1, hpop.2.2.1, hpop.2.2.2⟩
   intro name f hf
   rcases leaveForm_fonts_cases res sd rd outer st2 name f hf with h1 | h1
   · exact houter name f h1
@@ -679,7 +732,7 @@ theorem leaveForm_utf8 (res : FRes) (sd rd : Dict) (outer : FontMap) (st2 : St)
 
 theorem enterForm_utf8 (res : FRes) (st : St) (rd sd : Dict) (data : Str) (h : Utf8Inv st) :
     Utf8Inv (enterForm res st rd sd data) := by
-  refine ⟨?_, h.2⟩
+  refine ⟨?_, h.2.1, h.2.2.1, stackOK_push h.2.2.2 _ _ h.2.2.1⟩
   intro name f hf
   have hf' : formFonts res sd st.fonts name = some f := hf
   unfold formFonts at hf'
